@@ -50,7 +50,7 @@ class VerusUnit:
         cur = []
         for ln in text.split('\n'):
             m = re.match(r'\s*pub mod (\w+)\s*\{', ln)
-            if m:
+            if m and ln.count('{') > ln.count('}'):
                 cur.append(m.group(1))
             mod_at.append(cur[-1] if cur else '')
             m2 = re.match(r'\s*\}\s*//\s*mod (\w+)', ln)
@@ -96,6 +96,7 @@ class VerusUnit:
 
         fns = meta['functions']
         labels = meta['labels']
+        probes = meta.get('probes', [])
 
         def fn_at(line):
             for f in fns:
@@ -111,7 +112,26 @@ class VerusUnit:
             return '?'
 
         errors = []
+        probe_hits = {p['name']: 0 for p in probes}
+        def all_lines(sp):
+            """line of a span and of every macro invocation site it was expanded from"""
+            res = [sp['line_start']]
+            ex = sp.get('expansion')
+            while ex and ex.get('span'):
+                res.append(ex['span']['line_start'])
+                ex = ex['span'].get('expansion')
+            return res
+
         for d in errors_raw:
+            in_probe = None
+            for s2 in d['spans']:
+                for ln_ in all_lines(s2):
+                    for p in probes:
+                        if p['out_start'] <= ln_ <= p['out_end']:
+                            in_probe = p
+            if in_probe is not None:
+                probe_hits[in_probe['name']] += 1
+                continue
             prim = [s for s in d['spans'] if s.get('is_primary')] or d['spans']
             sp = prim[0]
             kind = classify(d['message'])
@@ -127,9 +147,14 @@ class VerusUnit:
             props = sorted(set(p for l in lab for p in l['props']))
             src = '\n'.join(lines[sp['line_start'] - 1:sp['line_end']])
             helper = bool(re.search(r'//\s*\(helper', src))
+            site = sp['line_start']
+            if f is None:
+                # innermost user function: the outermost macro invocation site among all spans
+                cands = [l for s2 in d['spans'] for l in all_lines(s2)]
+                site = max(cands) if cands else site
             errors.append(dict(
                 message=d['message'], kind=kind, line=sp['line_start'], line_end=sp['line_end'],
-                fn=(f['name'] if f else enclosing_named_fn(sp['line_start'])), extracted=bool(f), twin=bool(f and f['twin']),
+                fn=(f['name'] if f else enclosing_named_fn(site)), extracted=bool(f), twin=bool(f and f['twin']),
                 module=mod_at[sp['line_start'] - 1], props=props, helper=helper,
                 label_text='; '.join(l['text'] for l in lab), clause=re.sub(r'\s+', ' ', src.strip())[:400],
                 rendered=d.get('rendered', '')[:3000],
@@ -164,7 +189,10 @@ class VerusUnit:
             if f is not None and f['twin']:
                 continue
             failed = any(e['line'] <= l['line'] <= e['line_end'] for e in errors)
-            clauses.append(dict(fn=(f['name'] if f else l.get('fn')), module=mod_at[l['line'] - 1], props=l['props'], text=l['text'], line=l['line'], failed=failed,
+            if f is None and not l.get('fn'):
+                nm = enclosing_named_fn(l['line'] + 1)
+                failed = failed or any((not e['extracted']) and e['fn'] == nm for e in errors)
+            clauses.append(dict(fn=(f['name'] if f else (l.get('fn') or enclosing_named_fn(l['line'] + 1))), module=mod_at[l['line'] - 1], props=l['props'], text=l['text'], line=l['line'], failed=failed,
                                 repo_file=(f['file'] if f else None), repo_line=(f['line'] if f else None)))
         trusted = []
         for i, ln in enumerate(lines):
@@ -180,7 +208,7 @@ class VerusUnit:
         return dict(tool_failure=None, functions=functions, clauses=clauses, errors=errors, lemmas=lemmas, trusted=sorted(set(trusted)),
                     cmd='verus <extracted %s> --multiple-errors 50 --output-json --time-expanded' % os.path.basename(self.template),
                     wall_s=wall, rules=meta['rules'], rewrites=meta['rewrites'], items=meta['items'], path=path,
-                    verified=vr.get('verified'), nerrors=vr.get('errors'))
+                    verified=vr.get('verified'), nerrors=vr.get('errors'), probes=probe_hits)
 
 
 def evaluate(unit, prop, res, modules=None, arith_prop='C20', extra_props_for_unlabelled=()):
@@ -242,6 +270,12 @@ def evaluate(unit, prop, res, modules=None, arith_prop='C20', extra_props_for_un
     twins = [f for f in out['functions'] if f['twin'] and relevant_module(f['module'])]
     bad_twins = [f for f in twins if f['verified']]
     res.notes.setdefault('vacuity_probes', {})[unit.name] = dict(twins=len(twins), failed_as_required=len(twins) - len(bad_twins))
+    ph = out.get('probes') or {}
+    if ph:
+        res.notes['vacuity_probes'][unit.name].update(must_fail_probes=len(ph), failed_as_required_probes=len([k for k, v in ph.items() if v > 0]))
+        for k, v in ph.items():
+            if v == 0:
+                res.undecide('%s: must-fail probe %s verified (vacuous contract or insensitive obligation)' % (unit.name, k))
     for f in bad_twins:
         res.undecide('%s: vacuity twin of %s::%s verified `ensures false` (contradictory precondition or model axiom)' % (unit.name, f['module'], f['orig']))
     # obligations
